@@ -443,8 +443,12 @@ func (s *Sim) comb() error {
 				if s.dirty[i] {
 					s.dirty[i] = false
 					s.ndirty--
-					s.curNode = int32(i)
-					s.nodes[i].run(s)
+					nd := s.nodes[i]
+					if nd.isProc {
+						// a process does not re-trigger itself (it is not waiting while it runs)
+						s.curNode = int32(i)
+					}
+					nd.run(s)
 					s.curNode = -1
 					if s.maxDirty > hi {
 						hi = s.maxDirty
